@@ -157,10 +157,12 @@ class SMTwist(SMUserList):
             >>> S.isunit()
 
         """
+        # unit rotational part or, for an irrotational twist, unit translational part
+        isunit = base.isunittwist if self.shape == (6,) else base.isunittwist2
         if len(self) == 1:
-            return base.isunitvec(self.S)
+            return isunit(self.S)
         else:
-            return [base.isunitvec(x) for x in self.data]
+            return [isunit(x) for x in self.data]
 
     @property
     def unit(self):
